@@ -403,16 +403,29 @@ def run_history(ck, meshes, kinds, hist, refs, g0, known_set, stats):
             "history": [[t, list(op)] for t, op, _ in hist]}
     impl_sets = [[] for _ in grids]
     raised = [False for _ in grids]
+    refs = list(refs)
+    kinds = list(kinds)
     for step, (t, op, gets) in enumerate(hist):
         g = grids[t]
+        if op[0] == "spawn_copy":
+            # Grid.copy() kept alive as a further grid of the world (model: WCopy): it starts from what the original holds
+            # now, and from here on neither may affect the other
+            try:
+                grids.append(g.copy())
+            except Exception as ex:
+                ck.fail("raises", dict(case, failing_step=step), {"op": "spawn_copy", "step": step}, detail=repr(ex))
+                grids.append(mk_grid(refs[t].m, kinds[t]))
+            refs.append(refs[t]); kinds.append(kinds[t]); extra.append(set(extra[t]))
+            impl_sets.append([None] * step); raised.append(True)      # (variable sets of spawned grids are not sent to the model)
+            case["kinds"] = list(kinds)
         try:
-            r = canon(apply_op(g, op))
+            r = canon(apply_op(g, op)) if op[0] != "spawn_copy" else ("scalar", None)
         except Exception as ex:
             r = ("raises", type(ex).__name__)
         stats["ops"][op[0]] = stats["ops"].get(op[0], 0) + 1
         if r[0] == "raises":
             raised[t] = True        # a raising operation may have derived only part of what the model assumes
-        fresh = refs[t].result(op)
+        fresh = refs[t].result(op) if op[0] != "spawn_copy" else ("scalar", None)
         info = {"op": op[0], "arg": str(op[1]) if len(op) > 1 else "", "step": step}
         if op[0] == "xr":
             cv = {}
@@ -551,9 +564,14 @@ def main(ck):
         refs = [Ref(m, k) for m, k in zip(meshes, kinds)]
         n = rng.choice([1, 2, 3, 3, 5, 8, 14]) if ck.tier == "quick" else rng.choice([1, 2, 3, 5, 8, 14, 30])
         hist = []
+        ngr = len(meshes)
         for _ in range(n):
             op, gets = gen_op(rng)
-            hist.append((rng.randrange(len(meshes)), op, gets))
+            t = rng.randrange(ngr)
+            if rng.random() < 0.07 and ngr < 5:
+                op, gets = ("spawn_copy",), []
+                ngr += 1
+            hist.append((t, op, gets))
         lens[n] = lens.get(n, 0) + 1
         ck.note_case(([m.faces for m in meshes], kinds, [(t, op) for t, op, _ in hist]), nontrivial=n >= 2)
         case, impl_sets = run_history(ck, meshes, kinds, hist, refs, g0, None, stats)
@@ -757,7 +775,7 @@ def replay(ck, rp):
         return
     if "history" not in case:
         return
-    kinds = case.get("kinds", ["lonlat"] * len(meshes))
+    kinds = case.get("kinds", ["lonlat"] * len(meshes))[:len(meshes)]
     refs = [Ref(m, k) for m, k in zip(meshes, kinds)]
     hist = [(t, tuple(op), []) for t, op in case["history"]]
     run_history(ck, meshes, kinds, hist, refs, snapshot_globals(), None, {"ops": {}})
